@@ -531,3 +531,14 @@ def mapMatch {C : Type} (f : Nat → Nat) (m : Match C) : Match C :=
   { m with startLine := f m.startLine, endLine := f m.endLine }
 
 end LC.V2Match
+
+namespace LC.V2Match
+
+/-- the bytes hashed for a q-gram of token ids -/
+def gram (wordOf : Nat → Text) (g : List Nat) : Text := g.flatMap (fun i => wordOf i ++ [32])
+
+/-- distinct q-grams have distinct checksums -/
+def HashInj (crc : Text → Nat) (wordOf : Nat → Text) (q : Nat) : Prop :=
+  ∀ g h : List Nat, g.length = q → h.length = q → crc (gram wordOf g) = crc (gram wordOf h) → g = h
+
+end LC.V2Match
